@@ -17,10 +17,10 @@ PROPS["C17"] = dict(
               "Ddo.C17.gapOld_nan", "Ddo.C17.gapOld_zero_but_different"],
     level_text="All clauses of the property are Lean theorems about the model of Solver::gap for every pair of bounds (unbounded integers, all of isize); the model is tied to the code by comparing it with the real default method on a grid + random pairs, and the property predicate is evaluated on every float the code returns.",
     level_note="Trusted: Lean kernel; IEEE rounding of `as f32` and `/` (the theorems are on the exact fraction); the correspondence harness. Model and theorems follow the code after fix commit 3f82fd3 (D1); the pre-fix formula is kept as gapOld with its two violation witnesses.",
-    engines=[dict(name="gap")],
+    engines=[dict(name="gap"), dict(name="seq", label="seq_clean", args=[]), dict(name="par", label="par_cutoff", args=["--cutoff"])],
     trusted_base=TB_COMMON + ["f32 conversion and division are correctly rounded (monotone, 0 -> 0, non-zero integer -> non-zero): the model works on the exact fraction; the driver checks |float - fraction| <= 2^-20 * fraction and evaluates every clause of the property on the float itself"],
     assumptions=["lb <= ub (bounds reported by a solver)", "IEEE-754 round-to-nearest for `as f32` and `/`"],
-    rule="grid of 33 magnitudes incl. 0, +-1, 2^24+1, 2^31, 2^62, isize::MIN/MAX (all ordered pairs) + random pairs of random bit-length through a stub Solver exposing the bounds (the trait's default method gap() is what runs); non-trivial = both bounds finite (tags other than 'sentinel'); distinct = distinct (lb, ub)",
+    rule="(b) gap() of the real sequential and parallel solvers after every explored run, interrupted ones included (a solver may override the default method); (a) grid of 33 magnitudes incl. 0, +-1, 2^24+1, 2^31, 2^62, isize::MIN/MAX (all ordered pairs) + random pairs of random bit-length through a stub Solver exposing the bounds (the trait's default method gap() is what runs); non-trivial = both bounds finite (tags other than 'sentinel'); distinct = distinct (lb, ub)",
     trivial_tags=["sentinel"],
 )
 
@@ -353,6 +353,7 @@ PROPS["C02"]["engines"] = PROPS["C02"]["engines"] + PAR_ENGINES + [dict(name="pa
 PROPS["C03"]["engines"] = PROPS["C03"]["engines"] + [dict(name="parstress")]
 PROPS["C04"]["engines"] = PROPS["C04"]["engines"] + [dict(name="parstress")]
 PROPS["C14"]["engines"] = PROPS["C14"]["engines"] + [PAR_ENGINES[0]]
+PROPS["C17"]["trivial_tags"] = PROPS["C17"]["trivial_tags"] + SEQ_TRIVIAL + PAR_TRIVIAL
 PROPS["C14"]["trivial_tags"] = PROPS["C14"]["trivial_tags"] + PAR_TRIVIAL
 PROPS["C05"]["engines"] = PROPS["C05"]["engines"] + [PAR_ENGINES[2]]
 PROPS["C05"]["level_note"] = "Parallel part: sys_cutoff_bounds - in every reachable state of the concrete parallel model best_lb <= optimum, and after one or several abort_search calls (no crashed worker) optimum <= best_ub; sys_final: after an abort maximize() returns best_lb <= optimum <= best_ub, not exact, with a feasible solution of value best_lb. The proof attempt exposed that the first repair of D4 (976f40b) was incomplete: d4b_witness is a kernel-checked 20-step run of the system built with the intermediate formula (abortSearchD4) ending with best_ub = 10 < best_lb = optimum = 15; it was confirmed on the real code, repaired (5976a75), and d4b_fixed replays the schedule with the current formula. The tie to the code is trace validation + phi on every scheduled run with a cutoff (early and late cutoffs)."
